@@ -60,7 +60,7 @@ type Reply struct {
 	// Impostor: before this task's own reply, another executor (other agent and executor id) sends a success reply that names
 	// this command and this task id. It is not the target's answer and must not complete or alter the command.
 	Impostor bool
-	Then      func()        // called after the reply has been sent
+	Then     func() // called after the reply has been sent
 }
 
 // LaunchPlan says what a freshly launched task reports.
@@ -133,10 +133,12 @@ type FakeMaster struct {
 	srv      *http.Server
 
 	// behaviour hooks (called without the master lock held)
-	OnLaunch  func(t *SimTask) LaunchPlan
-	OnCommand func(t *SimTask, c *Command) Reply
-	OnTrigger func(t *SimTask, c *Command) Reply
-	OnKill    func(t *SimTask) KillPlan
+	OnLaunch func(t *SimTask) LaunchPlan
+	// OfferDelay: offers are sent this long after the REVIVE call (a busy master)
+	OfferDelay time.Duration
+	OnCommand  func(t *SimTask, c *Command) Reply
+	OnTrigger  func(t *SimTask, c *Command) Reply
+	OnKill     func(t *SimTask) KillPlan
 	// RefuseMessage: if set and returns non-zero, the MESSAGE call is answered with that HTTP status (undeliverable)
 	RefuseMessage func(t *SimTask, c *Command) int
 	// OfferFilter may drop agents from an offers round
@@ -148,7 +150,7 @@ type FakeMaster struct {
 	// ReconcileBare: reconciliation answers are built the way the master builds the statuses it generates itself: no
 	// executor id, no labels, no uuid (the optional fields an executor fills in).
 	ReconcileBare bool
-	Log               func(kind string, seq int64, data interface{})
+	Log           func(kind string, seq int64, data interface{})
 }
 
 func NewFakeMaster(agents []*Agent, clock *int64) *FakeMaster {
@@ -253,7 +255,12 @@ func (m *FakeMaster) handle(w http.ResponseWriter, r *http.Request) {
 		return
 	case scheduler.Call_REVIVE:
 		m.record(rec)
-		go m.SendOffers()
+		go func(d time.Duration) {
+			if d > 0 {
+				time.Sleep(d)
+			}
+			m.SendOffers()
+		}(m.OfferDelay)
 	case scheduler.Call_ACCEPT:
 		acc := call.GetAccept()
 		for _, o := range acc.OfferIDs {
